@@ -71,9 +71,6 @@ def sched_real(kinds, gaps, T):
         lambda r, w: SM.send_message(r, w, METHOD, dict(PARAMS), timeout=T / TICKS_PER_SEC, message_id=RID),
         T,
     )
-    # real instants: arrivals are half a tick late by construction
-    if out.kind in ("result", "retryable") and out.done is not None:
-        out.done = out.done - 0.5
     return _judge_sched(out, kinds, ts, T, RID, METHOD, PARAMS)
 
 
@@ -110,8 +107,6 @@ def idfam_real(kinds, gaps, T, rid, other):
         lambda r, w: SM.send_message(r, w, METHOD, dict(PARAMS), timeout=T / TICKS_PER_SEC, message_id=rid),
         T,
     )
-    if out.kind in ("result", "retryable") and out.done is not None:
-        out.done = out.done - 0.5
     return _judge_sched(out, kinds, ts, T, rid, METHOD, PARAMS)
 
 
@@ -319,4 +314,4 @@ def _judge_helper(out, name, ts, T, code):
 
 # The documented permanent (non-retryable) codes - the reference of the oracle, taken from
 # the documentation strings of protocol/types/errors.py at the pinned commit.
-REF_NON_RETRYABLE = frozenset({-32700, -32600, -32601, -32602, -32003, -32005, -32006, -32007, -32008, -32000})
+REF_NON_RETRYABLE = set({-32700, -32600, -32601, -32602, -32003, -32005, -32006, -32007, -32008, -32000})  # a plain set: CrossHair decides membership of a symbolic int in a set, not in a frozenset
